@@ -324,7 +324,7 @@ def boundaries (cs : List Chunk) : List Int :=
 
 /-- `t` lies in a stretch covered by no row of `rows`: no row `[time, endt)` has `time ≤ t < endt`
 (in particular none straddles `t`).  This is the property's wording ("fall in row-free gaps"); a cut
-at the very instant a row ends is allowed.  C07's `rechunk_stream` proves the stronger closed form
+at the very instant a row ends is allowed.  C07's `rechunk_stream_partial` proves the stronger closed form
 (`¬ (time ≤ t ≤ endt)`: today's rechunker cuts 500 ns inside a gap of more than 1000 ns). -/
 def inGap (rows : List Row) (t : Int) : Bool :=
   rows.all fun r => !(decide (r.time ≤ t) && decide (t < r.endt))
